@@ -129,6 +129,12 @@ class Scenario:
             w.net.on_send = hook
             import random
             random.seed(c["seed"])
+            # optionally the nodes that X will run through want circuits of their own but cannot build any (they know no
+            # candidates): their periodic builder keeps failing while the sweep must go on all the same
+            if c.get("demand"):
+                for nd in w.nodes[1:-1]:
+                    nd.overlay.candidates.clear()
+                    nd.overlay.circuits_needed[1] = 1
             x = origin.overlay.create_circuit(hops)
             if x is None:
                 self.fail("U", "build", "circuit X could not be started")
@@ -208,8 +214,9 @@ class Scenario:
                 e = w.net.escaped[0][3]
                 self.fail("R1", "exception:" + type(e).__name__, f"{type(e).__name__}: {e} escaped the receive path")
             self.info["nontrivial"] = bool(control_hit) or td == "vanish"
-            self.info["cls"] = "%dhop/%s/%s/%dfaults" % (hops, c["phase"], td, len(c["faults"]))
-            self.info["desc"] = (hops, c["phase"], td, tuple(map(tuple, c["faults"])))
+            self.info["cls"] = "%dhop/%s/%s/%dfaults%s" % (hops, c["phase"], td, len(c["faults"]),
+                                                          "/demand" if c.get("demand") else "")
+            self.info["desc"] = (hops, c["phase"], td, tuple(map(tuple, c["faults"])), bool(c.get("demand")))
         finally:
             w.net.on_send = None
             await w.close()
@@ -328,6 +335,9 @@ def _enum_shard(ctx: Ctx, shard: int, nshards: int, which: int, pairs: bool) -> 
     jobs = []
     for s in scs:
         jobs.append({**s, "seed": 5, "faults": []})
+        jobs.append({**s, "seed": 5, "faults": [], "demand": True})
+        for n in range(0, 24, 3):
+            jobs.append({**s, "seed": 5, "faults": [[n, "drop"]], "demand": True})
         for n in range(24):
             for kind in KINDS:
                 jobs.append({**s, "seed": 5, "faults": [[n, kind]]})
@@ -351,7 +361,8 @@ def _strategy():
     sc = st.sampled_from(scenarios())
     faults = st.lists(st.tuples(st.integers(0, 40), st.sampled_from(KINDS)).map(list), min_size=2, max_size=6,
                       unique_by=lambda f: f[0])
-    scen = st.tuples(sc, st.integers(0, 1000), faults).map(lambda t: {**t[0], "seed": t[1], "faults": t[2]})
+    scen = st.tuples(sc, st.integers(0, 1000), faults, st.booleans()).map(
+        lambda t: {**t[0], "seed": t[1], "faults": t[2], "demand": t[3]})
     join = st.fixed_dictionaries({"sub": st.just("join_limit"), "limit": st.integers(1, 4), "seed": st.integers(0, 99)})
     early = st.fixed_dictionaries({"sub": st.just("relay_early"), "limit": st.integers(0, 8), "burst": st.integers(1, 20),
                                    "seed": st.integers(0, 99)})
